@@ -353,6 +353,10 @@ func paramsInChildRuleSSA(r *Run, rule string) {
 	}
 	nSet, bad := 0, ""
 	var badPos token.Pos
+	var blockEval *ssa.Function
+	if be := w.evalMethod("BlockStatement"); be != nil {
+		blockEval = w.SSAFunc(be)
+	}
 	for _, p := range pw.paths {
 		// the scope of the function's own: what the first write to the scope field installs
 		install := -1
@@ -360,6 +364,15 @@ func paramsInChildRuleSSA(r *Run, rule string) {
 		for i, ev := range p.events {
 			if st, ok := ev.(*ssa.Store); ok && isCtxAddr(p.resolve(st.Addr)) && install < 0 {
 				install, installed = i, p.resolve(st.Val)
+			}
+		}
+		// the body runs in the function's own scope: its evaluation follows the install on every path
+		// (a short cut for functions without parameters would let a `let` in the body write the caller's scope)
+		if blockEval != nil {
+			for i, ev := range p.events {
+				if c, ok := ev.(*ssa.Call); ok && c.Call.StaticCallee() == blockEval && (install < 0 || i < install) {
+					bad, badPos = "on some path the body of the function is evaluated before (or without) a scope of the function's own being installed: its let statements write the caller's scope", origInstr(c).Pos()
+				}
 			}
 		}
 		for _, ev := range p.events {
